@@ -1,0 +1,34 @@
+//go:build verif
+
+package subscriber
+
+import "time"
+
+// Verification hooks for property C16 (session teardown). Compiled in only with -tags verif.
+
+// VerifC16CleanupTick runs one iteration of the cleanup loop body.
+func (m *Manager) VerifC16CleanupTick() { m.cleanupExpiredSessions() }
+
+// VerifC16Age lets d pass for every session (StartTime and LastActivity move back by d).
+func (m *Manager) VerifC16Age(d time.Duration) {
+	m.mu.Lock()
+	defer m.mu.Unlock()
+	for _, s := range m.sessions {
+		s.StartTime = s.StartTime.Add(-d)
+		s.LastActivity = s.LastActivity.Add(-d)
+	}
+}
+
+// VerifC16Indexes returns copies of the MAC and IP indexes (key -> session id).
+func (m *Manager) VerifC16Indexes() (byMAC, byIP map[string]string) {
+	m.mu.RLock()
+	defer m.mu.RUnlock()
+	byMAC, byIP = map[string]string{}, map[string]string{}
+	for k, v := range m.byMAC {
+		byMAC[k] = v
+	}
+	for k, v := range m.byIP {
+		byIP[k] = v
+	}
+	return
+}
